@@ -28,7 +28,7 @@ pub fn tx_events(w: &World, rec: &OpRecord) -> Vec<TxObs> {
     for (i, ev) in e.trace[rec.trace_lo..rec.trace_hi].iter().enumerate() {
         match ev {
             Ev::Tx { pw, rf, bytes, ok, .. } => v.push(TxObs { pw: *pw, rf: *rf, bytes: bytes.clone(), ok: *ok, at: rec.trace_lo + i }),
-            Ev::NbTxRequest { pw, rf, bytes, outcome, .. } => v.push(TxObs { pw: *pw, rf: *rf, bytes: bytes.clone(), ok: outcome != "Err", at: rec.trace_lo + i }),
+            Ev::NbTxRequest { pw, rf, bytes, outcome, .. } => v.push(TxObs { pw: *pw, rf: *rf, bytes: bytes.clone(), ok: outcome.starts_with("Tx"), at: rec.trace_lo + i }),
             _ => {}
         }
     }
